@@ -64,7 +64,8 @@ def cases(tier, rng):
         for v in VERSIONS:
             out.append(build(local, good, n=n, tag="deviation-version", **{**base, "ver": v}))
             n += 1
-        for m in MECHS:
+        # (near-miss names too: a known name as a proper prefix, a proper prefix of a known name, lower case, empty)
+        for m in MECHS + [b"NULLX", b"NULL-2", b"PLAINTEXT", b"CURVE25519", b"NUL", b"null", b"", b"XNULL"]:
             out.append(build(local, good, n=n, tag="deviation-mechanism", **{**base, "mech": m}))
             n += 1
         for s in SIGS:
@@ -165,4 +166,14 @@ def search(tier, rng):
         want = names[b] in wg.COMPAT[names[a]]
         if (v == "some true") != want:
             return {"call": f"{names[a]}.compatible({names[b]}) = {v}", "observed": f"RFC says {want}"}
+    # mechanism field: known iff the bytes before the first NUL are exactly NULL / PLAIN / CURVE
+    m = re.search(r"def mechParse[^\[]*:= \[(.*?)\]\n\n", src, re.S)
+    if m:
+        for row in re.findall(r"\(\[([0-9, ]+)\], (none|some \d+)\)", m.group(1)):
+            field = bytes(int(x) for x in row[0].split(","))
+            name = field.split(b"\0", 1)[0]
+            want = {b"NULL": "some 0", b"PLAIN": "some 1", b"CURVE": "some 2"}.get(name, "none")
+            if row[1] != want:
+                return {"call": f"ZmqMechanism::try_from({field!r})", "observed": row[1],
+                        "expected": f"{want} (0 = NULL, 1 = PLAIN, 2 = CURVE, none = rejected): the field names {name!r}"}
     return None
